@@ -141,6 +141,7 @@ func (s *Sim) checkTranslation(ctx *StepCtx) {
 		if n >= len(cands) {
 			s.violate(prop, "xlate.requested", "xlate:unrequested:"+kind,
 				"data plane received %s %s but the message has no matching %s IE (attrs %s)", r.Op, r.Key, kind, attrsString(r.Attrs))
+			continue
 		}
 		ri := cands[n]
 		// id / seid / link attributes
@@ -260,7 +261,7 @@ func (m *Model) expectedPerio() map[time.Duration]int {
 
 // checkPerioRegistration: C03, second sentence (fault-free population only).
 func (s *Sim) checkPerioRegistration(ctx *StepCtx) {
-	if !(s.oracleOn("C03") && s.cfg.Profile == "C03") || len(s.cfg.Faults) > 0 || s.firedM["dp.reject"]+s.firedM["dp.latefail"]+s.firedM["dp.empty"] > 0 {
+	if !(s.oracleOn("C03") && (s.cfg.Profile == "C03" || s.cfg.Profile == "C15")) || s.model.perioTaint || len(s.cfg.Faults) > 0 || s.firedM["dp.reject"]+s.firedM["dp.latefail"]+s.firedM["dp.empty"] > 0 {
 		return
 	}
 	got := s.perioGroups()
